@@ -222,3 +222,71 @@ def json_callee(t):
     if isinstance(f, dict):
         return f.get("k", "")
     return ""
+
+
+def r01_finite(chk, rule="R01-finite"):
+    """a float that is read must be writable as text that loads again: `str::parse::<f64>` accepts digit strings whose value
+    overflows to infinity (1e999), and `inf` is not a number token for the tokenizer; so somewhere between the parse and the
+    write a finiteness test is needed (in the reader: reject; or in the writer: clamp)"""
+    prog = mir.prog()
+    n = 0
+    sites = []
+    for fid, b in sorted(prog.bodies.items()):
+        short = mir.strip_generics(fid)
+        if re.search(r"parser::ParserState::(get_double|get_float)$|writer::Writer::add_float$", short) and b.kind != "Closure":
+            n += 1
+            fam = [b] + [c for c in prog.bodies.values() if c.kind == "Closure" and c.parent and c.parent.startswith(fid)]
+            tests = [t for fb in fam for bi, t in fb.calls() if re.search(r"::(is_finite|is_infinite|is_nan|classify)$", mir.strip_generics((t.get("res") or "").lstrip("?")))]
+            sites.append((short, bool(tests), b))
+    if sites and not any(ok for _, ok, _ in sites):
+        rd = [x for x in sites if "get_double" in x[0]] or sites
+        chk.add(Finding(rule, rule + "::no-finiteness-test", "neither the float readers (get_double/get_float) nor Writer::add_float test for infinity/NaN: a number such as 1e999 loads as +inf, is written as `inf`, and the written file does not load", rd[0][2].where()))
+    chk.rule(rule, "float reader/writer functions examined for a finiteness test", n, floor=3)
+
+
+def r01_tokline(chk, rule="R01-tokline"):
+    """tokens that can span several lines (String, block Comment, the raw A2ML text): get_line_offset() computes the offset of the
+    *next* token as next.line - this.line, and the writer reproduces the token's own line breaks from its text; so the token
+    must carry the line on which it ENDS (the `line += count_newlines(span)` update precedes the construction of the token).
+    A token that carries its start line makes the following token's offset include the token's own height: that many extra
+    line breaks are written, and again on every further load/save cycle."""
+    prog = mir.prog()
+    n = 0
+    for fid in ("tokenizer::tokenize_core", "tokenizer::handle_a2ml"):
+        b = prog.bodies.get(fid)
+        if b is None:
+            chk.add(Finding(rule, rule + "::anchor::" + fid, fid + " not found"))
+            continue
+        order = {bi: k for k, bi in enumerate(b.rpo())}
+        aggs = []
+        for bi, si, st in b.stmts():
+            if st["k"] == "assign" and st["rv"]["r"] == "agg" and st["rv"].get("kind") == "adt" and st["rv"]["adt"].endswith("tokenizer::A2lToken"):
+                kind = "?"
+                for fname, op in zip(st["rv"].get("fields", []), st["rv"]["ops"]):
+                    if fname == "ttype":
+                        pl = mir.op_place(op)
+                        if pl is not None:
+                            for bj, sj, s2 in b.stmts():
+                                if s2["k"] == "assign" and not s2["p"]["p"] and s2["p"]["l"] == pl["l"] and s2["rv"]["r"] == "agg":
+                                    kind = s2["rv"].get("v") or "?"
+                        elif "k" in op:
+                            kind = op["k"].split("::")[-1]
+                aggs.append((bi, kind, st["ln"]))
+        for ci, t in b.calls():
+            if not mir.strip_generics((t.get("res") or "").lstrip("?")).endswith("tokenizer::count_newlines"):
+                continue
+            # the token construction closest to this update in the straight-line region around it
+            best = None
+            for (ai, kind, ln) in aggs:
+                if b.dominates(ai, ci) or b.dominates(ci, ai):
+                    d = abs(order.get(ai, 0) - order.get(ci, 0))
+                    if best is None or d < best[0]:
+                        best = (d, ai, kind, ln)
+            if best is None:
+                continue
+            n += 1
+            _, ai, kind, ln = best
+            before = b.dominates(ai, ci) and ai != ci
+            if before and not (fid.endswith("handle_a2ml")):
+                chk.add(Finding(rule, "%s::%s::%s" % (rule, fid, kind), "%s builds the %s token before adding the token's own line breaks to the line counter: the token carries its start line, so everything after a multi-line %s moves down by its height on every load/save cycle" % (fid, kind, kind), b.where(ln)))
+    chk.rule(rule, "line-counter updates for multi-line tokens paired with the construction of their token (A2ML text exempt: A2ml::parse fixes its end offset)", n, floor=3)
